@@ -1,5 +1,5 @@
 """C20: check configuration (PROP) and MANIFEST texts (TEXT)."""
-PROP = {'n_quick': 200,
+PROP = {'n_quick': 160,
  'n_thorough': 2000,
  'audit': 10,
  'audit_maxlen': 1500,
@@ -8,10 +8,11 @@ PROP = {'n_quick': 200,
          'non-ASCII characters, overflow, other byte order, out-of-range tweaks; every sighash name and hex form); serde: structured transactions, single '
          'inputs/outputs, headers (proof / dynafed with null, compact, full params), blocks, params, confidential values, outpoints, lock times, secrets, '
          'blinding factors, scripts, hash newtypes, addresses and sighash types serialized to JSON text and CBOR bytes and read back; LockTime JSON on both '
-         'sides of the threshold through Deserialize; 37 hand-made malformed trees; EXPLORATION IN SUPPORT (no Coq model: the model side echoes the fixed '
-         'token "pset-serde", only the predicate deserialize(serialize(p)) == p is evaluated, on the implementation): real PSETs from the C07 generators '
-         '(repository vectors, every optional field alone, tap-tree shapes, random field subsets) and each of their Global / Input / Output maps through '
-         'JSON text, serde_json::Value and CBOR; distinct = distinct case text; non-trivial = value not the type\'s '
+         'sides of the threshold through Deserialize; 37 hand-made malformed trees; derived PSET serde: real PSETs from the C07 generators (repository vectors, every optional field alone, tap-tree shapes, random field '
+         'subsets) given to the model as neutral value trees plus a table of what the real crate serialized each dependency leaf to; the model renders the '
+         'exact JSON text and CBOR bytes of the whole PartiallySignedTransaction and its read-back verdicts (JSON text, serde_json::Value, CBOR); predicate '
+         'de(ser x) == x for the PSET, its Global and every Input / Output in all three formats; LockTime through all seven constructors at the boundary '
+         'values; distinct = distinct case text; non-trivial = value not the type\'s '
          'default',
  'trusted': ['serde_json 1.0.151 / serde_cbor 0.8.2 / serde 1.0.229 are modelled, not verified: json_view / cbor_view transcribe what their serializers put on the '
              'wire and the node kinds their deserializers hand to visitors (checked every run byte-for-byte: the model renders the exact JSON text and CBOR bytes)',
@@ -23,8 +24,12 @@ PROP = {'n_quick': 200,
              'strings are byte lists; the harness only feeds valid UTF-8'],
  'assumes': ['Address and the PSET base64 form: their Display/FromStr round trips are C06 / C07; here Address serde is proved relative to that round trip '
              '(C20_serde_string_forms) and exercised on generated addresses',
-             'the derived PartiallySignedTransaction / pset::Global / Input / Output serde (serde_derive, serde(flatten), serde_utils map encodings) has no '
-             'theorem: it is covered by correspondence only (exploration in support, `ps` cases), which found F28, F29, F30',
+             'derived PSET serde: serde_derive output is modelled by its regular shape (struct = map keyed by field name in declaration order, unknown keys '
+             'skipped, repeated keys rejected, missing fields rejected unless Option, positional sequence accepted) over field lists and attributes regenerated '
+             'from the source; dependency leaves (bitcoin::PublicKey, XOnlyPublicKey, schnorr::Signature, bip32 KeySource and Xpub, bitcoin::Transaction) and '
+             'pset::TapTree (derived over private fields of TaprootBuilder) are Section-variable codecs with a round-trip premise, instantiated per case from '
+             'what the real crate serialized; a BTreeMap is its list of pairs in iteration order (on malformed input with repeated keys the model keeps all, '
+             'Rust the last)',
              'values reach the model through their consensus encoding, so serde correspondence runs on consensus-canonical values (the theorems do not need '
              'canonicity); deserialization of trees that no Serialize impl produces is compared on 37 fixed probes only',
              'serde_derive / serde_cbor also accept integer variant indices and single-entry maps for enums; de_locktime does not model those inputs']}
@@ -36,16 +41,19 @@ TEXT = {'text': 'Kernel-checked theorems. Text forms: parse_T (print_T x) = Ok x
          '{:#x}; trim_start_matches("0x") + from_str_radix), and the generic numeral lemma for every radix 2..16 and width. Serde: for Transaction, TxIn, TxOut, '
          'both witnesses, AssetIssuance, OutPoint, Block, BlockHeader, ExtData, Params, confidential Value/Asset/Nonce, TxOutSecrets, LockTime, hash newtypes, '
          'midstate wrappers, Script, blinding factors and the Display-string types: de_T true (json_view (ser_T true x)) = Ok x and de_T false (cbor_view '
-         '(ser_T false x)) = Ok x under exactly the invariants of the Rust type (and, by a bridge lemma, under the consensus codecs\' wf). Finding F17 (Height/Time derived '
-         'Deserialize skipped the threshold check) is repaired in the library (6e5fde4); the theorems now state that every LockTime Deserialize returns '
-         'satisfies the invariant and survives Display/FromStr, and that the invariant is exactly the class on which the text round trip holds. The derived '
-         'PSET serde is explored by correspondence only and does not round-trip (findings F28-F30). Every run the model reproduces the crate\'s JSON text and CBOR bytes '
+         '(ser_T false x)) = Ok x under exactly the invariants of the Rust type (and, by a bridge lemma, under the consensus codecs\' wf). The serde_derive-generated impls of PartiallySignedTransaction, '
+         'pset::Global, TxData, Input (49 fields), Output (20), raw::Key, ProprietaryKey, SchnorrSig, ControlBlock and the four serde_utils helpers are codecs '
+         'assembled from proved combinators over field tables regenerated from the source: C20_serde_PartiallySignedTransaction states the round trip for '
+         'every well-formed PSET value (any number of maps, any subset of fields, maps of any size) in both views, relative to the round trip of the '
+         'dependency leaves. Findings F17 (Height/Time Deserialize skipped the threshold), F28 (flattened tx_data duplicated the key version: no PSET could '
+         'be read back), F29 (Parity visitor) and F30 (borrowed-str map values) were found by this check and are repaired in the library (6e5fde4, 8e1b994, '
+         '49e2be3, b4e5a99); the model follows the repaired code and a recurrence is a predicate violation. Every run the model reproduces the crate\'s JSON text and CBOR bytes '
          'byte-for-byte and its accept/reject/value/error-class on thousands of near-miss strings.',
  'design_ref': 'DESIGN.md section 6, C20 (notes/C20.md)',
  'note': 'Trusted: Coq kernel; hand-written Gallina transcriptions of the Display/FromStr/Serialize/Deserialize impls and of the dependency leaves (listed in '
          'evidence.trusted_base), tied to the code by translator tables (all sighash strings, enum values, prefixes, direction flags, field-name lists, tags, '
-         'byte-swap flags, macro shapes) and per-run correspondence; serde_json/serde_cbor behaviour is modelled by two views. By correspondence only (exploration in support, no theorem): the derived '
-         'PartiallySignedTransaction serde; not covered: the PSET base64 text form (C07); Address text round trip (C06, used as a premise). F15 (SchnorrSighashType::Reserved '
+         'byte-swap flags, macro shapes) and per-run correspondence; serde_json/serde_cbor behaviour is modelled by two views. Premises: the dependency '
+         'leaves of the PSET types and pset::TapTree round-trip on their own (checked on the real crate by every ps case). Not covered: the PSET base64 text form (C07); Address text round trip (C06, used as a premise). F15 (SchnorrSighashType::Reserved '
          'inside a SchnorrSig) concerns to_vec/from_slice, not these forms: as a string and in serde Reserved round-trips (C20_text_reserved_sighash).',
  'technique': 'Coq proof (numeral lemmas by induction on fuel, hex by byte enumeration, finite sighash tables by kernel computation over the regenerated lists, '
               'serde structs by symbolic evaluation of the visitor fold) + per-run model/implementation correspondence'}
